@@ -69,7 +69,8 @@ impl AbsWriter {
 	pub fn get_position(&mut self) -> (r: Result<u64, VErr>) ensures r is Ok ==> r.unwrap() == old(self).bytes@.len(), final(self).bytes@ == old(self).bytes@ { unimplemented!() }
 	#[verifier::external_body]
 	pub fn append(&mut self, blob: &Blob) -> (r: Result<ByteRange, VErr>)
-		ensures r is Ok, r.unwrap().offset == old(self).bytes@.len(), r.unwrap().length == blob@.len(), final(self).bytes@ == old(self).bytes@ + blob@
+		// (assumption A-file-size: a file has fewer than 2^62 bytes)
+		ensures r is Ok, r.unwrap().offset == old(self).bytes@.len(), r.unwrap().length == blob@.len(), final(self).bytes@ == old(self).bytes@ + blob@, final(self).bytes@.len() < 0x3fff_ffff_ffff_ffff
 	{ unimplemented!() }
 }
 // R6: HashMap<Vec<u8>, ByteRange> (looked up by slice) -> finite map from byte strings to ranges
@@ -193,7 +194,8 @@ impl VersaTilesWriter {
 //@ret r
 //@spec
 		requires block.global_bbox.wf(),
-		ensures r is Ok ==> (exists|t: Seq<u8>, ib: Seq<u8>, idx: Seq<ByteRange>| #![trigger block_written(*old(reader), block.global_bbox, t, idx), dec_brotli(ib)]
+		ensures *final(reader) == *old(reader), r is Ok ==> final(writer).bytes@.len() < 0x3fff_ffff_ffff_ffff,
+			r is Ok ==> (exists|t: Seq<u8>, ib: Seq<u8>, idx: Seq<ByteRange>| #![trigger block_written(*old(reader), block.global_bbox, t, idx), dec_brotli(ib)]
 			// the file grows by the tile section and the (brotli-compressed) index; the two returned ranges address them
 			final(writer).bytes@ == old(writer).bytes@ + t + ib
 			&& r.unwrap().0.offset == old(writer).bytes@.len() && r.unwrap().0.length == t.len()
@@ -241,6 +243,118 @@ impl VersaTilesWriter {
 			assert(writer.bytes@ =~= w0 + tfin + ib);
 			assert(block_written(src, gb, tfin, tile_index.index@));
 			assert(dec_brotli(ib) == Some(index_wire(tile_index.index@))); }
+//@end
+}
+
+// ---- write_blocks: the loop over the blocks of the coverage and the block index written behind them -------------------------------
+// trusted: #[derive(Clone)] is field-wise
+impl Clone for BlockDefinition { fn clone(&self) -> (r: Self) ensures r == *self {
+	BlockDefinition { offset: self.offset, global_bbox: self.global_bbox.clone(), tiles_coverage: self.tiles_coverage.clone(), tiles_range: self.tiles_range, index_range: self.index_range } } }
+impl BlockDefinition {
+//@extract fn file="versatiles_container/src/container/versatiles/types/block_definition.rs" scope="impl BlockDefinition" name="set_tiles_range"
+//@spec
+		ensures *final(self) == (BlockDefinition { tiles_range: range, ..*old(self) })
+//@end
+//@extract fn file="versatiles_container/src/container/versatiles/types/block_definition.rs" scope="impl BlockDefinition" name="set_index_range"
+//@spec
+		ensures *final(self) == (BlockDefinition { index_range: range, ..*old(self) })
+//@end
+}
+// the block definitions of the coverage (iter_levels / iter_bbox_grid(256) / BlockDefinition::new: units pyramid_real, tile_bbox_iter,
+// Kani unit versatiles_codec): boxes of one 256-block each, well-formed
+#[verifier::external_body]
+pub fn vblock_defs(p: &TileBBoxPyramid) -> (r: Vec<BlockDefinition>) ensures forall|i: int| 0 <= i < r@.len() ==> (#[trigger] r@[i]).global_bbox.wf() { unimplemented!() }
+#[verifier::external_body] pub fn get_progress_bar0() -> ProgressBar { unimplemented!() }
+impl ProgressBar { #[verifier::external_body] pub fn finish(&mut self) { } }
+// R6: BlockIndex (unit block_index: HashMap from block coordinate to definition; as_blob: the 33-byte records)
+#[verifier::external_body] pub struct BlockIndex { }
+pub uninterp spec fn bindex_wire(m: Map<TileCoord3, BlockDefinition>) -> Seq<u8>;
+impl BlockIndex {
+	pub uninterp spec fn map(&self) -> Map<TileCoord3, BlockDefinition>;
+	#[verifier::external_body]
+	pub fn new_empty() -> (r: BlockIndex) ensures r.map() == Map::<TileCoord3, BlockDefinition>::empty() { unimplemented!() }
+	#[verifier::external_body]
+	pub fn add_block(&mut self, block: BlockDefinition) ensures final(self).map() == old(self).map().insert(block.offset, block) { unimplemented!() }
+	#[verifier::external_body]
+	pub fn as_brotli_blob(&self) -> (r: Result<Blob, VErr>) ensures r is Ok ==> dec_brotli(r.unwrap()@) == Some(bindex_wire(self.map())) { unimplemented!() }
+}
+impl ByteRange {
+//@extract fn file="versatiles_core/src/types/byte_range.rs" scope="impl ByteRange" name="empty"
+//@ret r
+//@spec
+		ensures r.offset == 0, r.length == 0
+//@end
+}
+pub open spec fn sub(f: Seq<u8>, r: ByteRange) -> Seq<u8> { f.subrange(r.offset as int, r.offset + r.length) }
+// a block of the index: its two ranges lie in the file; the second decodes (brotli) to a tile index that addresses, inside the first,
+// every tile the source has in the block's box
+pub open spec fn block_ok(src: AbsSource, f: Seq<u8>, b: BlockDefinition) -> bool {
+	b.tiles_range.offset + b.tiles_range.length <= f.len() && b.index_range.offset + b.index_range.length <= f.len()
+	&& exists|idx: Seq<ByteRange>| #![trigger index_wire(idx)] dec_brotli(sub(f, b.index_range)) == Some(index_wire(idx)) && block_written(src, b.global_bbox, sub(f, b.tiles_range), idx)
+}
+pub open spec fn index_ok(src: AbsSource, f: Seq<u8>, m: Map<TileCoord3, BlockDefinition>) -> bool { forall|c: TileCoord3| #[trigger] m.contains_key(c) ==> block_ok(src, f, m[c]) && m[c].offset == c }
+pub proof fn lemma_block_ok_stable(src: AbsSource, f: Seq<u8>, x: Seq<u8>, b: BlockDefinition)
+	requires block_ok(src, f, b) ensures block_ok(src, f + x, b)
+{
+	let idx = choose|idx: Seq<ByteRange>| #![trigger index_wire(idx)] dec_brotli(sub(f, b.index_range)) == Some(index_wire(idx)) && block_written(src, b.global_bbox, sub(f, b.tiles_range), idx);
+	assert(sub(f + x, b.index_range) =~= sub(f, b.index_range)); assert(sub(f + x, b.tiles_range) =~= sub(f, b.tiles_range));
+	assert(dec_brotli(sub(f + x, b.index_range)) == Some(index_wire(idx)));
+}
+pub proof fn lemma_index_ok_stable(src: AbsSource, f: Seq<u8>, x: Seq<u8>, m: Map<TileCoord3, BlockDefinition>)
+	requires index_ok(src, f, m) ensures index_ok(src, f + x, m)
+{ assert forall|c: TileCoord3| #[trigger] m.contains_key(c) implies block_ok(src, f + x, m[c]) && m[c].offset == c by { lemma_block_ok_stable(src, f, x, m[c]); } }
+impl VersaTilesWriter {
+//@extract fn file="versatiles_container/src/container/versatiles/writer.rs" scope="impl VersaTilesWriter" name="write_blocks"
+//@prerewrite "pyramid .iter_levels() .flat_map(|level_bbox| { level_bbox .iter_bbox_grid(256) .map(|bbox_block| BlockDefinition::new(&bbox_block)) }) .collect()" => "vblock_defs(&pyramid)"
+//@prerewrite "get_progress_bar( \"converting tiles\", blocks.iter().map(|block| block.count_tiles()).sum::<u64>(), )" => "get_progress_bar0()"
+//@prerewrite "tiles_count += block.count_tiles(); progress.set_position(tiles_count);" => ""
+//@rewrite "reader: &mut dyn TilesReaderTrait" => "reader: &mut AbsSource" R6
+//@rewrite "writer: &mut dyn DataWriterTrait" => "writer: &mut AbsWriter" R6
+//@rewrite "for mut block in blocks.into_iter() {" => "let mut vbi: usize = 0; while vbi < blocks.len() { let mut block = blocks[vbi].clone(); vbi += 1;" R7
+//@ret r
+//@spec
+		requires old(writer).bytes@.len() < 0x3fff_ffff_ffff_ffff,
+		ensures r is Ok ==> (exists|m: Map<TileCoord3, BlockDefinition>| #![trigger bindex_wire(m)]
+			// the block index is the last thing written (the returned range, unless the source is empty); every block it lists is intact in the file
+			(r.unwrap().length > 0 ==> r.unwrap().offset + r.unwrap().length == final(writer).bytes@.len() && dec_brotli(sub(final(writer).bytes@, r.unwrap())) == Some(bindex_wire(m)))
+			&& index_ok(*old(reader), final(writer).bytes@, m)),
+//@start
+		let ghost src = *reader;
+//@at "if pyramid.is_empty()"
+		proof { assert(index_ok(src, writer.bytes@, Map::<TileCoord3, BlockDefinition>::empty())); assert(bindex_wire(Map::<TileCoord3, BlockDefinition>::empty()).len() >= 0); }
+//@loop 1
+			invariant *reader == src, src == *old(reader), forall|i: int| 0 <= i < blocks@.len() ==> (#[trigger] blocks@[i]).global_bbox.wf(),
+				vbi <= blocks@.len(), writer.bytes@.len() < 0x3fff_ffff_ffff_ffff,
+				index_ok(src, writer.bytes@, block_index.map()),
+			decreases blocks@.len() - vbi,
+//@at "let (tiles_range, index_range) ="
+			let ghost f0 = writer.bytes@; let ghost m0 = block_index.map();
+//@after "let (tiles_range, index_range) = Self::write_block(&block, reader, writer, &mut progress)?;"
+			let ghost f1 = writer.bytes@;
+			proof {
+				let (t, ib, idx) = choose|t: Seq<u8>, ib: Seq<u8>, idx: Seq<ByteRange>| #![trigger block_written(src, block.global_bbox, t, idx), dec_brotli(ib)]
+					f1 == f0 + t + ib && tiles_range.offset == f0.len() && tiles_range.length == t.len() && index_range.offset == f0.len() + t.len() && index_range.length == ib.len()
+					&& dec_brotli(ib) == Some(index_wire(idx)) && block_written(src, block.global_bbox, t, idx);
+				assert(f1 =~= f0 + (t + ib));
+				lemma_index_ok_stable(src, f0, t + ib, m0);
+				assert(sub(f1, tiles_range) =~= t); assert(sub(f1, index_range) =~= ib);
+				let b1 = BlockDefinition { tiles_range: tiles_range, index_range: index_range, ..block };
+				assert(dec_brotli(sub(f1, b1.index_range)) == Some(index_wire(idx)) && block_written(src, b1.global_bbox, sub(f1, b1.tiles_range), idx));
+				assert(block_ok(src, f1, b1));
+			}
+//@after "block_index.add_block(block);"
+			proof { assert forall|c: TileCoord3| #[trigger] block_index.map().contains_key(c) implies block_ok(src, f1, block_index.map()[c]) && block_index.map()[c].offset == c by {
+				if c != block.offset { assert(m0.contains_key(c)); } } }
+//@at "let range = writer.append(&block_index.as_brotli_blob()?)?;"
+		let ghost f2 = writer.bytes@; let ghost m2 = block_index.map();
+//@after "let range = writer.append(&block_index.as_brotli_blob()?)?;"
+		proof { let ib2 = sub(writer.bytes@, range);
+			lemma_tail(f2);
+			assert(ib2 =~= tsec(writer.bytes@, f2.len() as int));
+			assert(writer.bytes@ =~= f2 + ib2);
+			lemma_index_ok_stable(src, f2, ib2, m2);
+			lemma_tail(f2);
+			assert(dec_brotli(ib2) == Some(bindex_wire(m2))); }
 //@end
 }
 } // verus!
